@@ -8,7 +8,7 @@ import "strings"
 type extEffect struct {
 	writes     map[int]bool
 	returns    map[int]bool
-	stores     [][2]int // (i,j): argument j may be stored into argument i
+	stores     [][2]int     // (i,j): argument j may be stored into argument i
 	holds      map[int]bool // the fresh result keeps a reference to this argument (it does not alias it)
 	deepWrites map[int]bool // writes the argument and whatever it holds (e.g. a buffer's backing array)
 	writesAll  bool
@@ -25,15 +25,15 @@ func idx(xs ...int) map[int]bool {
 }
 
 var (
-	pureFresh = extEffect{fresh: true}                                   // reads its arguments, result (if any) is new
-	aliasAll  = extEffect{returnsAll: true, fresh: true}                 // reads; result may alias or hold any argument
-	w0        = extEffect{writes: idx(0), fresh: true}                   // writes its receiver / first argument
-	w0ret0    = extEffect{writes: idx(0), returns: idx(0), fresh: true}  // ... and returns it
+	pureFresh = extEffect{fresh: true}                                  // reads its arguments, result (if any) is new
+	aliasAll  = extEffect{returnsAll: true, fresh: true}                // reads; result may alias or hold any argument
+	w0        = extEffect{writes: idx(0), fresh: true}                  // writes its receiver / first argument
+	w0ret0    = extEffect{writes: idx(0), returns: idx(0), fresh: true} // ... and returns it
 	w1        = extEffect{writes: idx(1), fresh: true}
 	w01       = extEffect{writes: idx(0, 1), fresh: true}
 	ret0      = extEffect{returns: idx(0), fresh: true}
-	holdsAll  = extEffect{holds: idx(0, 1, 2, 3), fresh: true}                           // result is a new object holding the arguments
-	deepW0    = extEffect{writes: idx(0), deepWrites: idx(0), fresh: true}               // writes the receiver and what it holds
+	holdsAll  = extEffect{holds: idx(0, 1, 2, 3), fresh: true}             // result is a new object holding the arguments
+	deepW0    = extEffect{writes: idx(0), deepWrites: idx(0), fresh: true} // writes the receiver and what it holds
 
 )
 
@@ -60,53 +60,54 @@ var externalsTable = map[string]extEffect{
 	"(*math/big.Rat).Add": w0ret0, "(*math/big.Rat).Sub": w0ret0, "(*math/big.Rat).Mul": w0ret0, "(*math/big.Rat).SetFloat64": w0ret0,
 	"(*math/big.Rat).Set": w0ret0, "(*math/big.Rat).Neg": w0ret0,
 	// readers, writers, buffers
-	"bufio.NewScanner":            holdsAll,
-	"(*bufio.Scanner).Scan":       w0,
-	"(*bufio.Scanner).Buffer":     extEffect{writes: idx(0), stores: [][2]int{{0, 1}}, fresh: true},
-	"bytes.NewBuffer":             holdsAll, // the buffer takes ownership of its argument: writes to the buffer (deepW0) write it
-	"bytes.NewReader":             holdsAll,
-	"(*bytes.Buffer).Bytes":       extEffect{returnsAll: true, fresh: true},
-	"(*bytes.Buffer).Write": deepW0,
-	"(*bytes.Buffer).WriteByte": deepW0,
-	"(*bytes.Buffer).WriteString": deepW0,
-	"(*bytes.Buffer).WriteRune": deepW0,
-	"(*bytes.Buffer).Reset": deepW0,
-	"(*bytes.Buffer).Grow": deepW0,
-	"(*bytes.Buffer).Truncate": deepW0,
-	"(*strings.Builder).WriteString": w0,
-	"(*strings.Builder).WriteRune":   w0,
-	"(*strings.Builder).WriteByte":   w0,
-	"(*strings.Builder).Write":       w0,
-	"(*strings.Builder).Grow":        w0,
-	"(*strings.Builder).Reset":       w0,
-	"bytes.TrimRight":             ret0,
-	"bytes.TrimSpace":             ret0,
-	"io.ReadFull":                 w01,
-	"io.Reader.Read":              w01,
-	"io.Writer.Write":             deepW0,
-	"io.ByteReader.ReadByte":      w0,
-	"io.WriteString":              w0,
-	"fmt.Fprintf":                 w0,
-	"fmt.Fprint":                  w0,
-	"fmt.Fprintln":                w0,
-	"encoding/binary.Write":       w0,
-	"encoding/binary.Read":        extEffect{writes: idx(0, 2), fresh: true},
+	"bufio.NewScanner":                    holdsAll,
+	"(*bufio.Scanner).Scan":               w0,
+	"(*bufio.Scanner).Buffer":             extEffect{writes: idx(0), stores: [][2]int{{0, 1}}, fresh: true},
+	"bytes.NewBuffer":                     holdsAll, // the buffer takes ownership of its argument: writes to the buffer (deepW0) write it
+	"bytes.NewReader":                     holdsAll,
+	"(*bytes.Buffer).Bytes":               extEffect{returnsAll: true, fresh: true},
+	"(*bytes.Buffer).Write":               deepW0,
+	"(*bytes.Buffer).WriteByte":           deepW0,
+	"(*bytes.Buffer).WriteString":         deepW0,
+	"(*bytes.Buffer).WriteRune":           deepW0,
+	"(*bytes.Buffer).Reset":               deepW0,
+	"(*bytes.Buffer).Grow":                deepW0,
+	"(*bytes.Buffer).Truncate":            deepW0,
+	"(*strings.Builder).WriteString":      w0,
+	"(*strings.Builder).WriteRune":        w0,
+	"(*strings.Builder).WriteByte":        w0,
+	"(*strings.Builder).Write":            w0,
+	"(*strings.Builder).Grow":             w0,
+	"(*strings.Builder).Reset":            w0,
+	"bytes.TrimRight":                     ret0,
+	"bytes.TrimSpace":                     ret0,
+	"io.ReadFull":                         w01,
+	"io.Reader.Read":                      w01,
+	"io.Writer.Write":                     deepW0,
+	"io.ByteReader.ReadByte":              w0,
+	"io.WriteString":                      w0,
+	"fmt.Fprintf":                         w0,
+	"fmt.Fprint":                          w0,
+	"fmt.Fprintln":                        w0,
+	"encoding/binary.Write":               w0,
+	"encoding/binary.Read":                extEffect{writes: idx(0, 2), fresh: true},
 	"encoding/binary.ByteOrder.PutUint32": w1,
 	"encoding/binary.ByteOrder.PutUint64": w1,
 	"encoding/binary.ByteOrder.PutUint16": w1,
-	"strconv.AppendFloat":         w0ret0,
-	"strconv.AppendInt":           w0ret0,
-	"encoding/json.Unmarshal":     w1, // RawMessage fields and decoded values are copies of the input bytes
-	"sort.Sort":                   w0,
-	"sort.Stable":                 w0,
-	"sort.Slice":                  w0,
-	"sort.Float64s":               w0,
-	"sort.Ints":                   w0,
-	"reflect.ValueOf":             aliasAll,
-	"(reflect.Value).Index":       aliasAll,
-	"(reflect.Value).Interface":   aliasAll,
-	"(reflect.Value).Kind":        pureFresh,
-	"(reflect.Value).Len":         pureFresh,
+	"strconv.AppendFloat":                 w0ret0,
+	"strconv.AppendInt":                   w0ret0,
+	"encoding/json.Unmarshal":             w1, // RawMessage fields and decoded values are copies of the input bytes
+	"sort.Sort":                           w0,
+	"sort.Stable":                         w0,
+	"sort.Slice":                          w0,
+	"sort.Float64s":                       w0,
+	"sort.Ints":                           w0,
+	"(*github.com/twpayne/go-kml/v3.GxKMLElement).WriteIndent": w1,
+	"reflect.ValueOf":           aliasAll,
+	"(reflect.Value).Index":     aliasAll,
+	"(reflect.Value).Interface": aliasAll,
+	"(reflect.Value).Kind":      pureFresh,
+	"(reflect.Value).Len":       pureFresh,
 }
 
 func lookupExternal(name string) (extEffect, bool) {
